@@ -2,7 +2,7 @@
 """Fail-closed translator: arithmetic and expression-level code of votelib -> Gallina.
 
 usage: py2v.py <repo> <outdir>
-Writes <outdir>/{Divisor,Quota,Pairwin,Rankscore,Threshold,Approval,Openlist,Signatures}.v, <outdir>/Signatures.json and <outdir>/STATUS.json
+Writes <outdir>/{Divisor,Quota,Pairwin,Rankscore,Threshold,Approval,Openlist,Core,CoreQsel,Signatures}.v, <outdir>/Signatures.json and <outdir>/STATUS.json
 (per unit: status ok | partial | failed, per definition ok | "unsupported: <why> at line N: <ast node>").
 
 1. Untyped function translator (component/divisor.py, component/quota.py).  Accepted subset (anything else raises
@@ -21,6 +21,8 @@ Writes <outdir>/{Divisor,Quota,Pairwin,Rankscore,Threshold,Approval,Openlist,Sig
    subset and TYPED_JOBS / RANK_TYPED for what is extracted from which method (whole body, the condition of a comprehension,
    a loop's test, the statements up to a local).  Parameters of a generated definition are the attributes and arguments
    the code reads, with declared types; locals and loop variables are bound by position, so renaming them changes nothing.
+   Unit Core (util.sorted_votes, core.get_n_best, Plurality.evaluate as whole bodies; CoreQsel: QuotaSelector.evaluate on top of the
+   generated get_n_best): see CORE_UTIL / CORE_CORE / COREQSEL and translate_core; primitives read by Prelude/PySeq.v.
 5. Class / signature tables (every class of votelib/**/*.py -> Gen/Signatures.v + Signatures.json): how to_dict comes about and its
    keys, constructor parameters and how __init__ stores each (Stored | StoredAs | Transformed line | NotStored), attribute writes after
    construction, mutable default arguments, evaluate / convert / validate parameter lists - see the comment above class SigTables.
@@ -390,6 +392,11 @@ def translate_rankscore(path, wanted, module):
 #           | D = {} [S = set()] .. for k, v in e.items(): if c: D[k] = v [else: S.add(k)]   (-> filter; S is dead)
 #           | try: body except TypeError: raise RuntimeError(..)                 (-> body: typed values never raise TypeError)
 #           | def f(..): ..   (only usable as the key of sorted())
+#           | a, b = pair | x = None (start value of a loop variable only)
+#           | x1 = e1 .. for t in e: <assignments / appends / ifs updating x1 ..>   (-> fold_left over e, see TX.for_fold)
+#           | return f(..) for a translated raising function (tail call)
+#    in a definition declared raising, l[i] (IndexError) and `n - x` with x possibly None (TypeError) are hoisted in evaluation order:
+#    match <op> with Some v => <the statement and what follows> | None => inr <exception> end   (see TX.hoist)
 #    e ::= int | name | self.a | e (+|-|*) e | l + l | l * e | not e | e and e | e or e | e (<|<=|>|>=|==|!=) e | e in l
 #        | e if c else e | Fraction(e, e) | Fraction(e) | len(e) | sum(e.values()) | votelib.util.sorted_votes(e) | range(e) | max/min(e, e)
 #        | e[:e] | [e, ..] | [e for x in e if c] | frozenset(e for x in e for y in e ..) | list(sorted(S, key=f)) (order dropped)
@@ -397,6 +404,8 @@ def translate_rankscore(path, wanted, module):
 #        | {k: e for x in e} | d.values() | d.get(k, e) | d[k] (k a key of d) | frozenset(l)
 #        | c.attr / c.meth() for a candidate c and a declared observer ('obs:attr' parameter: the attribute as a function)
 #        | x is (not) None as the test of an if statement, for a parameter declared optional
+#        | sorted(l, key=operator.itemgetter(i) | lambda x: e, reverse=b) (numeric key: py_sorted) | d.items() | list(l) | list(reversed(l))
+#        | l[::-1] | t[0] t[1] of a pair | l[i] | enumerate(l) as an iterable | Tie(l) | m.f(..) for a translated function of module m
 #  Anything else raises Unsupported naming the node: the definition is marked failed (fail closed).
 # atomic types are 'Z' 'Q' 'B' 'C' and lowercase words; compound types are tuples tagged 'L' 'S' 'U' 'O' 'P' 'F' (no overlap, so
 # that ty[0] identifies a constructor also when ty is an atom)
